@@ -81,9 +81,12 @@ Fixpoint range_digit (l : list (Z * Z)) (c : Z) : Z :=
   | (lo, hi) :: r => if c <? lo then 0 else if c <=? hi then (c - lo) mod 10 else range_digit r c
   end.
 
-(* run-length coded texts (the harness writes 10^5-character inputs this way) *)
-Fixpoint unrle (l : list (Z * Z)) : text :=
-  match l with [] => [] | (c, n) :: r => repeat c (Z.to_nat n) ++ unrle r end.
+(* block-coded texts (the harness writes 10^5-character inputs this way):
+   each block repeated n times, concatenated *)
+Fixpoint rept (n : nat) (b : text) : text :=
+  match n with O => [] | S k => b ++ rept k b end.
+Fixpoint unblocks (l : list (text * Z)) : text :=
+  match l with [] => [] | (b, n) :: r => rept (Z.to_nat n) b ++ unblocks r end.
 
 (* token type names *)
 Definition K_DOLLAR : text := [68; 79; 76; 76; 65; 82].
